@@ -18,8 +18,15 @@ DOCS = [
 ]
 
 
+# documents live under paths that need percent-encoding in a URI (a blank, a non-ASCII letter, a '#', a '+'): what the server
+# makes of the URI must not decide whether the document's diagnostics are published
+URI_DIRS = ["w", "w/my%20project", "w/caf%C3%A9", "w/a+b/c%23", "w/%E6%97%A5%E6%9C%AC"]
+
+
 def uri_str(uid, is_file):
-    return ("file:///w/doc%d.st" % uid) if is_file else ("untitled:Untitled-%d" % uid)
+    if not is_file:
+        return "untitled:Untitled-%d" % uid
+    return "file:///%s/doc%s%d.st" % (URI_DIRS[uid % len(URI_DIRS)], "%20" if uid % 2 else "", uid)
 
 
 def to_real(m, texts):
@@ -32,7 +39,7 @@ def to_real(m, texts):
     if k == "S":
         return lspclient.sem_tokens(m[1], uri_str(m[2], m[3]))
     if k == "Q":
-        return {"jsonrpc": "2.0", "id": m[1], "method": m[2], "params": {"textDocument": {"uri": "file:///w/doc1.st"},
+        return {"jsonrpc": "2.0", "id": m[1], "method": m[2], "params": {"textDocument": {"uri": uri_str(1, True)},
                                                                         "position": {"line": 0, "character": 0}}}
     if k == "N":
         return {"jsonrpc": "2.0", "method": m[1], "params": {}}
